@@ -1045,3 +1045,25 @@ mut('c19-signature-255-rejected', ['C19', 'C02'], M,
 mut('ok-c19-signature-over-255-rejected', ['C19', 'C02'], M,
     [("def marshal_signature(ct, var, start_byte, lendian, oobFDs):\n", "def marshal_signature(ct, var, start_byte, lendian, oobFDs):\n    if len(var) > 255:\n        raise MarshallingError('Signature exceeds maximum length of 255')\n")], kind='benign',
     note='an explicit guard with the right bound (struct would raise anyway)')
+
+
+# ---- the seeded changes of independent sub-agents (seeded/<id>/patch.diff) as break entries:
+# each must make the check of the property it was written against exit 1
+def _load_seeds():
+    import glob
+    import os
+    import re
+    d = os.path.join(os.path.dirname(os.path.dirname(
+        os.path.abspath(__file__))), 'seeded')
+    for p in sorted(glob.glob(os.path.join(d, '*', 'patch.diff'))):
+        sid = os.path.basename(os.path.dirname(p))
+        m = re.match(r'(C\d\d)-', sid)
+        if not m:
+            continue
+        MUTANTS.append({'id': 'seed-' + sid, 'kind': 'break',
+                        'props': [m.group(1)], 'file': None, 'edits': [],
+                        'expect': [], 'note': 'seeded by a sub-agent',
+                        'patch': p})
+
+
+_load_seeds()
